@@ -378,6 +378,29 @@ def run(cx):
         ob.floor(len(seen), 6, "known task-creation sites re-identified")
         ob.set_sample({"sites": sorted(f"{k.split('::')[-1]} in {o_}" for k, o_ in seen)})
 
+    with cx.ob("C08.8", "R-SHAPE", "the bound UDP socket has a single owner, the QUIC endpoint (whose socket shutdown swaps out): no library type stores a socket handle and the socket is never duplicated") as ob:
+        SOCK = ("std::net::udp::UdpSocket", "socket2::socket::Socket", "tokio::net::udp::UdpSocket", "std::os::fd::owned::OwnedFd", "std::os::fd::raw::RawFd", "quinn::runtime")
+        n_f = 0
+        for path, a in prog.adts.items():
+            if not path.startswith("anemo::"):
+                continue
+            for v in a["variants"]:
+                for f in v["fields"]:
+                    n_f += 1
+                    ob.require(not any(k in f["ty"] for k in SOCK), f"socket-holder/{path}.{f['name']}",
+                               f"{path}.{f['name']}: {f['ty'][:80]} keeps a handle to the UDP socket - the address stays bound for as long as that value lives, whatever shutdown() does", path)
+        ob.floor(n_f, 40, "fields of anemo types inspected")
+        dups = [c for b_ in prog.bodies.values() if b_.crate == "anemo" for c in b_.calls() if not b_.is_cleanup(c.bb)
+                and name_matches(c.fn, ("Socket::try_clone", "UdpSocket::try_clone", "OwnedFd::try_clone", "AsRawFd::as_raw_fd", "AsFd::as_fd", "IntoRawFd::into_raw_fd", "FromRawFd::from_raw_fd", "BorrowedFd::try_clone_to_owned"))]
+        for c in dups:
+            ob.fail("refuted", f"socket-duplicated/{owner_path(prog, c.body)}", f"{c.fn} in {c.body.path}: a second handle to the bound socket outlives the endpoint's own", c.body.path, c.body.loc(c.bb))
+        # the socket created in Builder::start goes into the endpoint, nowhere else
+        sb_ = cx.body("anemo::network::Builder::start")
+        news = [c for b_ in [sb_] + list(prog.children(sb_)) for c in b_.calls() if not b_.is_cleanup(c.bb) and name_matches(c.fn, "socket2::socket::Socket::new")]
+        ob.floor(news, 1, "socket creation in Builder::start", exact=True)
+        en = [c for c in sb_.calls_to("anemo::endpoint::Endpoint::new") if not sb_.is_cleanup(c.bb)]
+        ob.floor(en, 1, "Endpoint::new in Builder::start", exact=True)
+
     with cx.ob("C08.5", "R-PANIC", "panic inventory of manager / teardown / API code: every site justified; shutdown()'s empty-map assert is not dischargeable") as ob:
         lb = loop_body(cx)
         sh = cx.coroutine(f"{MGR}::shutdown")
